@@ -9,7 +9,7 @@ SPEC = {
                   "netip.ParseAddr / net.ResolveTCPAddr / ndp.NewCaptivePortal, and the rendering of cases. TOML decoding (go-toml strict "
                   "mode: unknown keys, wrong types, syntax) is outside the model: expected rejects are supplied by the generator. "
                   "'never panics' is tested only (byte-level malformed stream under recover) -- partial.",
-    "drivers": [{"pkg": "internal/config", "test": "TestVerifC02", "timeout": 1500}],
+    "drivers": [{"pkg": "internal/config", "test": "TestVerifC02", "timeout": 1500, "arch386": ["quick", "thorough"]}],
     "rule": "TOML documents generated from the key grammar. stream key: every key x every value of its vocabulary (limit-1s/-1ns/0/+1ns/+1s "
             "around each limit, far out, negative, fractional, int64 overflow, junk, \"\", auto, infinite, absent; CIDR / server / name / "
             "debug-address vocabularies (pref64.prefix: every prefix length 0..128); overlap pairs; name/names/mode combinations) on a random valid base document; stream interval: all "
